@@ -93,7 +93,7 @@ def run(ctx):
     for L in range(0, 41):
         ent = tm.sized("entropy", L) if L else b""  # arbitrary entropy of exactly L bytes
         s = ev.run(fc, {fc.params()[0]: ent})
-        kind, val = rules.decided_outcome(s)
+        kind, val = rules.strict_outcome(s)
         legal = L in (16, 20, 24, 28, 32)
         if (kind == "return") != legal:
             bad.append("entropy of %d bytes is %s" % (L, "encoded" if kind == "return" else "refused"))
